@@ -251,8 +251,22 @@ def _wrong_type(valid):
     return 5
 
 
-def _item_cases():
+def _cross_cases():
+    """part C: two layers that mention DIFFERENT rules: each must stay effective"""
     cases = []
+    for lo, hi in itertools.permutations(LAYERS, 2):
+        for df in range(3):
+            for cf in range(3):
+                if "default" not in (lo, hi) and df != 0:
+                    continue
+                if "config" not in (lo, hi) and cf != 0:
+                    continue
+                cases.append(("X", lo, hi, df, cf))
+    return cases
+
+
+def _item_cases():
+    cases = _cross_cases()
     for (rule, item), (valid, bad) in sorted(ITEM_SAMPLES.items()):
         for layer in LAYERS:
             for strict in STRICT:
@@ -356,6 +370,40 @@ def evaluate(payload):
                     fail = (f"enabled:scan-disagrees-with-plugins-list", {"expected": exp, "rule_fired": fired, "files": files, "args": pre + args})
         res["fail"] = fail
         res["outcome"] = fail[0] if fail else f"{rule}:{exp}:{layer}"
+        return res
+    if c[0] == "X":
+        _x, la, lb, df, cf = c
+        # layer la: md013.line_length=20 and md001.enabled=false ; layer lb: md004.style=dash and md002.enabled=true
+        files, args = {}, []
+        for layer, tree in ((la, {"md013": {"line_length": 20}, "md001": {"enabled": False}}), (lb, {"md004": {"style": "dash"}, "md002": {"enabled": True}})):
+            full = {"plugins": tree}
+            if layer == "pyproject":
+                files["pyproject.toml"] = _pyproject(full)
+            elif layer == "default":
+                files[DEFAULT_FLAVOURS[df]] = _dump(DEFAULT_FLAVOURS[df], full)
+            elif layer == "config":
+                files[CONFIG_FLAVOURS[cf]] = _dump(CONFIG_FLAVOURS[cf], full)
+                args += ["--config", CONFIG_FLAVOURS[cf]]
+            else:
+                for rule, items in tree.items():
+                    for k, v in items.items():
+                        args += ["--set", _setarg(f"plugins.{rule}.{k}", v)]
+        fail = None
+        with app.Sandbox(files) as sb:
+            r1, v13 = _info(sb, args, "md013")
+            r2, v04 = _info(sb, args, "md004")
+            r3 = app.run_main(args + ["plugins", "list"], sb)
+            res["feeds"] += 3
+            got = {"md013.line_length": v13.get("line_length"), "md004.style": v04.get("style"),
+                   "md001.enabled": _current_enabled(r3.out, "md001"), "md002.enabled": _current_enabled(r3.out, "md002")}
+        want = {"md013.line_length": "20", "md004.style": '"dash"', "md001.enabled": False, "md002.enabled": True}
+        bad = sorted(k for k in want if got[k] != want[k])
+        if bad:
+            fail = (f"cross:{la}+{lb}:lost-" + "+".join(bad), {"files": files, "args": args, "effective": got, "expected": want})
+        res["states"] = [("X", la, lb)]
+        res["nontrivial"] = True
+        res["fail"] = fail
+        res["outcome"] = fail[0] if fail else f"X:{la}+{lb}"
         return res
     if c[0] == "B":
         _b, rule, item, layer, strict, kind = c
